@@ -917,6 +917,11 @@ func stringOfArg(fr *frame, arg value, verb byte) value {
 	case bool, int, int8, int16, int32, int64, uint, uint8, uint16, uint32, uint64, uintptr, float32, float64:
 		return fmt.Sprint(v)
 	case []value:
+		if sl, isSl := it.t.Underlying().(*types.Slice); isSl && verb == 's' {
+			if eb, ok := sl.Elem().Underlying().(*types.Basic); ok && eb.Kind() == types.Uint8 {
+				return normStr(v)
+			}
+		}
 		if b, ok := bytesOf(v); ok {
 			if _, isBytes := it.t.Underlying().(*types.Slice); isBytes {
 				if verb == 's' {
